@@ -551,7 +551,103 @@ fn run_direct(
         Ok(Err(e)) => return json!({"outcome": "Err/prepare", "text": e}),
         Ok(Ok(t)) => t,
     };
-    let its = intents(program, txspec, args, Some(fee as i128), Some(197 * pp.cpb as i128));
+    let mut its = intents(program, txspec, args, Some(fee as i128), Some(197 * pp.cpb as i128));
+    let mut prepared = prepared;
+    // hand-built multi-ref queries (soundness only): the front end writes one reference per block, a
+    // client-built IR may list several
+    let multi_ref = {
+        let mut g = w.lock().unwrap();
+        if g.tape.draw(6) == 5 {
+            let pool: Vec<RefKey> = g.chain.utxos.keys().cloned().collect();
+            let mut rewrite: BTreeMap<String, tir::Expression> = BTreeMap::new();
+            let mut blocks: Vec<(String, &tir::Expression)> = vec![];
+            for i in prepared.inputs.iter() {
+                blocks.push((i.name.clone(), &i.utxos));
+            }
+            for c in prepared.collateral.iter() {
+                blocks.push(("collateral".to_string(), &c.utxos));
+            }
+            for (name, e) in blocks {
+                let tir::Expression::EvalParam(p) = e else { continue };
+                let tir::Param::ExpectInput(_, q) = &**p else { continue };
+                let had = match &q.r#ref {
+                    tir::Expression::UtxoRefs(v) if v.len() == 1 => true,
+                    tir::Expression::None => false,
+                    _ => continue,
+                };
+                if g.tape.draw(if had { 2 } else { 4 }) != 0 {
+                    continue;
+                }
+                let n = 1 + g.tape.draw(3) as usize;
+                let mut extra: Vec<RefKey> = vec![];
+                for _ in 0..n {
+                    if !pool.is_empty() && g.tape.draw(5) != 0 {
+                        let k = pool[g.tape.index(pool.len())].clone();
+                        extra.push(k);
+                    } else {
+                        extra.push((vec![0xDDu8; 32], g.tape.draw(3) as u32));
+                    }
+                }
+                let mut all: Vec<tx3_tir::model::core::UtxoRef> = match &q.r#ref {
+                    tir::Expression::UtxoRefs(v) => v.clone(),
+                    _ => vec![],
+                };
+                all.extend(extra.iter().map(unrk));
+                if let Some(b) = its.iter_mut().find(|b| b.name == name) {
+                    b.extra_refs = extra;
+                    rewrite.insert(name, tir::Expression::UtxoRefs(all));
+                }
+            }
+            drop(g);
+            if rewrite.is_empty() {
+                false
+            } else {
+                // the query of a block is repeated wherever the template mentions the input: every copy
+                // is rewritten alike
+                struct Rw<'a>(&'a BTreeMap<String, tir::Expression>);
+                impl<'a> tx3_tir::Visitor for Rw<'a> {
+                    fn reduce(&mut self, expr: tir::Expression) -> Result<tir::Expression, tx3_tir::reduce::Error> {
+                        if let tir::Expression::EvalParam(p) = &expr {
+                            if let tir::Param::ExpectInput(n, q) = &**p {
+                                if let Some(r) = self.0.get(n) {
+                                    let mut q = q.clone();
+                                    q.r#ref = r.clone();
+                                    return Ok(tir::Expression::EvalParam(Box::new(tir::Param::ExpectInput(n.clone(), q))));
+                                }
+                            }
+                        }
+                        Ok(expr)
+                    }
+                }
+                match guarded(|| prepared.clone().apply(&mut Rw(&rewrite))) {
+                    Ok(Ok(t)) => {
+                        let qs = tx3_tir::reduce::find_queries(&t);
+                        let consistent = rewrite.iter().all(|(n, r)| qs.get(n).map(|q| &q.r#ref == r).unwrap_or(false));
+                        if consistent {
+                            prepared = t;
+                            true
+                        } else {
+                            for b in its.iter_mut() {
+                                b.extra_refs.clear();
+                            }
+                            false
+                        }
+                    }
+                    _ => {
+                        for b in its.iter_mut() {
+                            b.extra_refs.clear();
+                        }
+                        false
+                    }
+                }
+            }
+        } else {
+            false
+        }
+    };
+    if multi_ref {
+        rep.probe("multi-ref-query");
+    }
     let mut attempt = 0;
     loop {
         attempt += 1;
@@ -622,7 +718,7 @@ fn run_direct(
                 }
                 let static_now = !moved && (faults_fired == 0 || attempt > 1) && !byz;
                 if let tx3_resolver::Error::InputNotResolved(name, _, _) = &e {
-                    if static_now {
+                    if static_now && !multi_ref {
                         check_completeness(rep, &its, name, &chain_before, &fetch_reqs, &actx);
                     }
                 }
